@@ -836,6 +836,11 @@ def _accept_slice_impl(slice_expr, input_array, reduced_axes, keepdims, make_res
     if any(idx is None for idx in index):
         return None
 
+    if input_array.dtype == object:
+        # the blocks need not be arrays (argtopk reduces (values, indices)
+        # pairs), so they cannot be sliced
+        return None
+
     input_ndim = input_array.ndim
 
     if keepdims:
